@@ -7,6 +7,7 @@ import (
 	"fmt"
 	"path/filepath"
 	"sync"
+	"sync/atomic"
 	"testing"
 	"time"
 
@@ -207,6 +208,81 @@ func TestCompletionOverlap(t *testing.T) {
 			w.write(J{"ev": "End", "trace": trace, "i": i + 1, "obs": read()})
 			trace++
 		}
+	}
+	// (c) the simple strategy used directly (no limiter in front of it): two TryAcquire calls overlap - the first parked
+	// between its check and its increment while the second takes the last unit. Used this way the strategy does not promise
+	// the gate (the contract's limit is set out of reach: only conservation is judged), but whoever is refused holds
+	// nothing and the count is the tokens out (C02).
+	for _, lim := range []int{1, 2} {
+		st := strategy.NewSimpleStrategy(lim)
+		names := []string{"a", "b", "h"}
+		status := map[string]string{"a": "idle", "b": "idle", "h": "idle"}
+		cfg := wrapCfg{Kind: "default", Ctor: fmt.Sprintf("simple-direct/limit=%d", lim), Limit: 99, Procs: names, Blackbox: true}
+		read := func() J { return obsOf(names, status, st.GetBusyCount(), -1) }
+		w.write(J{"ev": "Reset", "trace": trace, "cfg": cfg, "obs": read()})
+		i := 0
+		step := func(s schedStep, evs []J) {
+			i++
+			w.write(J{"ev": "Step", "trace": trace, "i": i, "step": s, "evs": evs, "obs": read()})
+		}
+		var held []core.StrategyToken
+		if lim == 2 {
+			tk, ok := st.TryAcquire(context.Background())
+			status["h"] = map[bool]string{true: "granted", false: "refused"}[ok]
+			step(schedStep{A: "start", P: "h", Call: "acquire"}, []J{{"k": "ret", "p": "h", "ok": ok, "nil": !ok, "t": 0}})
+			if ok {
+				held = append(held, tk)
+			}
+		}
+		parked, resume := make(chan struct{}), make(chan struct{})
+		var first int32
+		strategy.VerifPoint = func(point string) {
+			if point == "simple.afterCheck" && atomic.CompareAndSwapInt32(&first, 0, 1) { // only the first caller parks
+				close(parked)
+				<-resume
+			}
+		}
+		type ret struct {
+			t  core.StrategyToken
+			ok bool
+		}
+		ra := make(chan ret, 1)
+		go func() { tk, ok := st.TryAcquire(context.Background()); ra <- ret{tk, ok} }()
+		select {
+		case <-parked:
+		case <-time.After(2 * time.Second):
+			t.Fatal("the first caller never reached the strategy's check")
+		}
+		status["a"] = "gate:simple.afterCheck"
+		step(schedStep{A: "start", P: "a", Call: "acquire"}, []J{})
+		tb, okb := st.TryAcquire(context.Background())
+		okb = okb && tb != nil && tb.IsAcquired()
+		status["b"] = map[bool]string{true: "granted", false: "refused"}[okb]
+		step(schedStep{A: "start", P: "b", Call: "acquire"}, []J{{"k": "ret", "p": "b", "ok": okb, "nil": !okb, "t": 0}})
+		close(resume)
+		a := <-ra
+		strategy.VerifPoint = nil
+		oka := a.ok && a.t != nil && a.t.IsAcquired()
+		status["a"] = map[bool]string{true: "granted", false: "refused"}[oka]
+		step(schedStep{A: "pass", P: "a", Gate: "simple.afterCheck"}, []J{{"k": "ret", "p": "a", "ok": oka, "nil": !oka, "t": 0}})
+		for _, x := range []struct {
+			n  string
+			ok bool
+			t  core.StrategyToken
+		}{{"a", oka, a.t}, {"b", okb, tb}} {
+			if x.ok {
+				x.t.Release()
+				status[x.n] = "released"
+				step(schedStep{A: "start", P: x.n, Call: "release", Outcome: "success"}, []J{})
+			}
+		}
+		for _, tk := range held {
+			tk.Release()
+			status["h"] = "released"
+			step(schedStep{A: "start", P: "h", Call: "release", Outcome: "success"}, []J{})
+		}
+		w.write(J{"ev": "End", "trace": trace, "i": i + 1, "obs": read()})
+		trace++
 	}
 	writeJSON(t, filepath.Join(outDir(t), "overlap.json"), J{"scenarios": trace})
 }
